@@ -14,6 +14,12 @@
 //   harness --section S --tier T --only k
 //        runs exactly case k, prints its description first (replay)
 #pragma once
+#ifdef VF_COVERAGE
+// coverage builds (tools/coverage.py) link with --wrap=_exit so that forked children flush their counters
+extern "C" void __gcov_dump(void);
+extern "C" void __real__exit(int) __attribute__((noreturn));
+extern "C" __attribute__((weak, noreturn)) void __wrap__exit(int c) { __gcov_dump(); __real__exit(c); }
+#endif
 #include <errno.h>
 #include <fcntl.h>
 #include <signal.h>
@@ -125,8 +131,17 @@ struct Run {
     slot->idx = i;
     slot->beat++;
     evals++;
+    poison_errno();
     return true;
   }
+  // Ambient errno is part of the environment a library call runs in (a stale ERANGE left by unrelated code must not
+  // change a result).  It is owned here: a deterministic function of the case index, so --only replays see the same
+  // value.  Harnesses may call poison_errno() again right before the call under test.
+  inline int ambient_errno() const {
+    static const int kErr[4] = {0, ERANGE, EINVAL, EINTR};
+    return kErr[((cur * 2654435761ull) >> 13) & 3];
+  }
+  inline void poison_errno() const { errno = ambient_errno(); }
   // Like take() but for engines that number work items themselves (BFS states).
   inline void beat() { slot->beat++; }
   inline void note(const std::string& s) {
